@@ -26,6 +26,31 @@ type Program struct {
 	pkgOf map[string]*packages.Package
 
 	funcs map[string]*ssa.Function // qualified name -> function (repo only, incl. anon)
+
+	mutGlobals map[string]bool
+}
+
+// MutableGlobal: is the package-level variable (named "<pkg>.<name>") stored
+// to outside package initialisation?
+func (p *Program) MutableGlobal(name string) bool {
+	if p.mutGlobals == nil {
+		p.mutGlobals = map[string]bool{}
+		for _, fn := range p.RepoFuncs() {
+			if fn.Name() == "init" || strings.HasPrefix(fn.Name(), "init#") {
+				continue
+			}
+			for _, b := range fn.Blocks {
+				for _, in := range b.Instrs {
+					if st, ok := in.(*ssa.Store); ok {
+						if g, ok := st.Addr.(*ssa.Global); ok && g.Pkg != nil {
+							p.mutGlobals[shortPkg(g.Pkg.Pkg.Path())+"."+g.Name()] = true
+						}
+					}
+				}
+			}
+		}
+	}
+	return p.mutGlobals[name]
 }
 
 func goEnv() []string {
@@ -136,6 +161,37 @@ func Load(dir string, overlay map[string][]byte) (*Program, error) {
 			}
 		}
 		p.funcs[name] = fn
+	}
+	// methods of (possibly generic) named types that nothing instantiates
+	for _, pk := range p.Repo {
+		sc := pk.Types.Scope()
+		for _, n := range sc.Names() {
+			tn, ok := sc.Lookup(n).(*types.TypeName)
+			if !ok {
+				continue
+			}
+			named, ok := tn.Type().(*types.Named)
+			if !ok {
+				continue
+			}
+			for i := 0; i < named.NumMethods(); i++ {
+				f := prog.FuncValue(named.Method(i))
+				if f == nil || f.Blocks == nil {
+					continue
+				}
+				var add func(f *ssa.Function)
+				add = func(f *ssa.Function) {
+					name := QualName(f)
+					if old, ok := p.funcs[name]; !ok || old.Blocks == nil {
+						p.funcs[name] = f
+					}
+					for _, af := range f.AnonFuncs {
+						add(af)
+					}
+				}
+				add(f)
+			}
+		}
 	}
 	return p, nil
 }
